@@ -75,6 +75,13 @@ func accessPath(v ssa.Value) string {
 			}
 		}
 		return ""
+	case *ssa.IndexAddr:
+		if k, ok := core.ConstIntValue(t.Index); ok {
+			if p := accessPath(t.X); p != "" {
+				return fmt.Sprintf("%s[%d]", p, k)
+			}
+		}
+		return fmt.Sprintf("%s@%p", v.Name(), v)
 	case *ssa.Convert:
 		if p := accessPath(t.X); p != "" {
 			return t.Type().String() + "(" + p + ")"
@@ -428,6 +435,7 @@ func checkUnwrap(c *core.Ctx, funcs []*ssa.Function) {
 		}
 	}
 	builtinArgs := newBuiltinArgTable(prog)
+	allFuncs := prog.ModuleFuncs()
 	nSites := 0
 	for _, fn := range funcs {
 		for _, b := range fn.Blocks {
@@ -457,7 +465,13 @@ func checkUnwrap(c *core.Ctx, funcs []*ssa.Function) {
 					if tagGuarded(fn, v, want, use.Block()) || tagGuarded(fn, v, want, call.Block()) {
 						continue
 					}
-					if builtinArgs.guards(fn, call, v, want) {
+					if builtinArgs.guards(fn, call, v, want) || builtinArgs.explicitCheck(fn, call, v, want) {
+						continue
+					}
+					if returnsKindGuard(v, want, use.Block()) {
+						continue
+					}
+					if paramGuardedByCallers(prog, allFuncs, builtinArgs, fn, v, want) {
 						continue
 					}
 					bad = true
@@ -553,10 +567,141 @@ func tagName(k *ssa.Const) string {
 		return "Backend"
 	case "ACL":
 		return "Acl"
-	case "ID":
+	case "ID", "IDENT":
 		return "Ident"
 	case "REGEX":
 		return "Regex"
 	}
 	return ""
+}
+
+var retKindMemo = map[*ssa.Function]string{}
+
+// returnsKind: the value kind ("Boolean", …) of the first result on every return whose error may be nil; "" if mixed.
+func returnsKind(fn *ssa.Function, depth int) string {
+	if k, ok := retKindMemo[fn]; ok {
+		return k
+	}
+	retKindMemo[fn] = ""
+	if fn.Blocks == nil || depth > 3 {
+		return ""
+	}
+	kind := ""
+	for _, rs := range core.ReturnSites(fn) {
+		if len(rs.Results) < 1 {
+			return ""
+		}
+		errNonNil := false
+		for _, r := range rs.Results[1:] {
+			if core.IsErrorType(r.Type()) && errNonNilAt(r, rs.Ret.Block()) {
+				errNonNil = true
+			}
+		}
+		if errNonNil {
+			continue
+		}
+		k := kindOfValue(rs.Results[0], depth)
+		if k == "" || (kind != "" && kind != k) {
+			return ""
+		}
+		kind = k
+	}
+	retKindMemo[fn] = kind
+	return kind
+}
+
+func kindOfValue(v ssa.Value, depth int) string {
+	switch t := v.(type) {
+	case *ssa.MakeInterface:
+		if core.NamedTypePkgName(t.X.Type()) != "" && strings.HasPrefix(core.NamedTypePkgName(t.X.Type()), valuePkg+".") {
+			if _, isPtr := t.X.Type().Underlying().(*types.Pointer); isPtr {
+				return core.NamedTypeName(t.X.Type())
+			}
+		}
+	case *ssa.Extract:
+		if call, ok := t.Tuple.(*ssa.Call); ok && t.Index == 0 {
+			if cal := call.Common().StaticCallee(); cal != nil {
+				return returnsKind(cal, depth+1)
+			}
+		}
+	case *ssa.Call:
+		if cal := t.Common().StaticCallee(); cal != nil {
+			return returnsKind(cal, depth+1)
+		}
+	case *ssa.Phi:
+		kind := ""
+		for _, e := range t.Edges {
+			k := kindOfValue(e, depth)
+			if k == "" || (kind != "" && k != kind) {
+				return ""
+			}
+			kind = k
+		}
+		return kind
+	}
+	return ""
+}
+
+// returnsKindGuard: v is the first result of calls that always yield *value.<want> when their error is nil, and the use
+// is on the nil-error side of each of them.
+func returnsKindGuard(v ssa.Value, want string, b *ssa.BasicBlock) bool {
+	var check func(x ssa.Value) bool
+	check = func(x ssa.Value) bool {
+		switch t := x.(type) {
+		case *ssa.Extract:
+			call, ok := t.Tuple.(*ssa.Call)
+			if !ok || t.Index != 0 || kindOfValue(t, 0) != want {
+				return false
+			}
+			for _, e := range core.ErrorResults(call) {
+				if !core.DominatedByNil(e, b, true) {
+					return false
+				}
+			}
+			return true
+		case *ssa.Phi:
+			for _, e := range t.Edges {
+				if !check(e) {
+					return false
+				}
+			}
+			return len(t.Edges) > 0
+		case *ssa.MakeInterface:
+			return kindOfValue(t, 0) == want
+		}
+		return false
+	}
+	return check(v)
+}
+
+// paramGuardedByCallers: v is a parameter of a helper; every static caller passes a value that is guarded for <want>
+// at its call site (validated built-in argument, explicit tag test, or return-kind).
+func paramGuardedByCallers(prog *core.Program, all []*ssa.Function, t *builtinArgTable, fn *ssa.Function, v ssa.Value, want string) bool {
+	p, ok := v.(*ssa.Parameter)
+	if !ok {
+		return false
+	}
+	idx := -1
+	for i, q := range fn.Params {
+		if q == p {
+			idx = i
+		}
+	}
+	callers := core.CallersOf(fn, all)
+	if idx < 0 || len(callers) == 0 {
+		return false
+	}
+	for _, cs := range callers {
+		call, ok := cs.(*ssa.Call)
+		if !ok || idx >= len(cs.Common().Args) {
+			return false
+		}
+		a := cs.Common().Args[idx]
+		cf := cs.Parent()
+		if tagGuarded(cf, a, want, call.Block()) || t.guards(cf, call, a, want) || t.explicitCheck(cf, call, a, want) || returnsKindGuard(a, want, call.Block()) {
+			continue
+		}
+		return false
+	}
+	return true
 }
